@@ -1,6 +1,6 @@
 (* M9 — proofs about Posting/Model.v: what the script produced by TxToScriptData does under the source semantics
    (Numscript/Sem.v), for every posting list and every balance table; Postings.Reverse as an arithmetic inverse. *)
-From FL Require Import Numscript.Sem Posting.Model.
+From FL Require Import Numscript.Sem Numscript.Corr Posting.Model.
 From Coq Require Import Lia ZArith List Bool.
 Import ListNotations.
 Open Scope Z_scope.
@@ -873,4 +873,24 @@ Theorem unforced_safe : forall ps b extra r,
   replay_ok false (view b) (reverse_postings ps) = true.
 Proof.
   intros ps b extra r Ht H. apply (success_iff _ false b extra Ht). exists r. exact H.
+Qed.
+
+(* the closed form the harness compares every real run with ([predict], Posting/Model.v) is what the theorems give *)
+Theorem predict_sound : forall ps unb b st extra,
+  tracks b ps -> (forall a s, a <> world -> view b a s = store_balance st a s) ->
+  (forall p, In p ps -> 0 <= p_amount p) ->
+  match run_postings ps unb b extra with
+  | SOk r => predict ps unb st = ODone r
+  | SErr e => predict ps unb st = OErr e
+  end.
+Proof.
+  intros ps unb b st extra Ht Hv Hpos. unfold predict.
+  rewrite <- (replay_ext unb ps (view b) (store_balance st) Hv).
+  pose proof (success_iff ps unb b extra Ht) as Hiff. fold (run_postings ps unb b extra) in Hiff.
+  destruct (run_postings ps unb b extra) as [r|e] eqn:Hr.
+  - destruct Hiff as [Hiff _]. rewrite Hiff by (eexists; reflexivity).
+    destruct (exact_result _ _ _ _ _ Hr) as [H1 [H2 [H3 H4]]]. destruct r; cbn in *; subst. reflexivity.
+  - destruct (replay_ok unb (view b) ps).
+    + destruct Hiff as [_ Hiff]. destruct (Hiff eq_refl) as [r Hr']. discriminate.
+    + destruct (failure_class _ _ _ _ _ Ht Hpos Hr) as [He _]. subst. reflexivity.
 Qed.
